@@ -9,7 +9,9 @@ THEOREMS = ["Pomerol.Properties.C18." + t for t in (
     "ordering_modes_differ_by_a_permutation", "break_variant_was_wrong", "renumbered_representation_is_car", "mode_switch_is_renumbering", "renaming_sites_is_renumbering",
     "results_change_by_the_induced_permutation", "mode_switch_matrices_similar", "renaming_matrices_similar")]
 RULE = ("a case = random lattice (1-4 sites, 0-3 orbitals, 1-3 spins per site, arbitrary ASCII labels) under both ordering "
-        "modes: full forward and inverse tables against the model, invalid triples, out-of-range indices; plus relabelled / "
+        "modes, also with the classification object declared when only the first site exists: full forward and inverse tables against "
+        "the model, invalid triples, out-of-range indices; a search over 3e5 (thorough 2e6) generated labels for two that the key order "
+        "cannot tell apart; plus relabelled / "
         "mode-switched reruns of whole models whose G, occupancies and spectrum must agree after the induced index "
         "permutation; non-trivial = distinct lattice with at least two sites of different shape, or a rerun pair")
 TRUSTED = ["harness/pipe.cpp"]
